@@ -58,6 +58,12 @@ MakeWrench(t) == Can("makeWrench") /\ \E pi \in DOMAIN Pts, fi \in DOMAIN Pts, f
 ChangeFrame(t) == Can("changeFrame") /\ IsObj(obj[t]) /\ \E j \in FI, how \in {"implicit", "explicit", "fsr"} :
              /\ (how = "fsr" => obj[t].kind = "wrench")             \* fsr.transformWrenchFrame
              /\ Put(t, CF(obj[t], j), [op |-> "changeFrame", f |-> j, how |-> how])
+(* changeFrame(new, old) with an explicit old frame that is NOT the recorded one: the data is read as being
+   expressed in `old` (this is how fsr.transformWrenchFrame is meant to be used on raw data) *)
+ChangeFrameFrom(t) == Can("changeFrameFrom") /\ IsObj(obj[t]) /\ \E j \in FI, i \in FI, how \in {"method", "fsr"} :
+             /\ (how = "fsr" => obj[t].kind = "wrench")
+             /\ i # j        \* old = new with a different recorded frame: nothing to re-express; what is recorded then is not specified
+             /\ Put(t, CF([obj[t] EXCEPT !.f = i], j), [op |-> "changeFrameFrom", f |-> j, old |-> i, how |-> how])
 AddSub(t) == Can("addsub") /\ IsObj(obj[t]) /\ obj[Other(t)].kind = obj[t].kind /\ \E sg \in {1, -1} :
              Put(t, AddO(obj[t], obj[Other(t)], sg), [op |-> "addsub", sg |-> sg])
 VecOp(t) == Can("vecop") /\ IsObj(obj[t]) /\ \E w \in {"add", "sub", "rsub", "radd"}, vi \in DOMAIN Vecs, shape \in {"col", "flat"} :
@@ -77,7 +83,7 @@ MulDiv(t) == Can("muldiv") /\ IsObj(obj[t]) /\ \E w \in {"mul", "rmul", "div"}, 
              Put(t, IF w = "div" THEN Scale(obj[t], 1, k) ELSE Scale(obj[t], k, 1), [op |-> "muldiv", w |-> w, k |-> k])
 Copy(t) == Can("copy") /\ IsObj(obj[Other(t)]) /\ Put(t, obj[Other(t)], [op |-> "copy"])
 
-Next == \E t \in Slots : New(t) \/ MakeWrench(t) \/ ChangeFrame(t) \/ AddSub(t) \/ VecOp(t) \/ ScalOp(t) \/ MulDiv(t) \/ Copy(t)
+Next == \E t \in Slots : New(t) \/ MakeWrench(t) \/ ChangeFrame(t) \/ ChangeFrameFrom(t) \/ AddSub(t) \/ VecOp(t) \/ ScalOp(t) \/ MulDiv(t) \/ Copy(t)
 Spec == Init /\ [][Next]_vars
 
 (* ============================ laws, on every reachable object ============================ *)
